@@ -33,6 +33,17 @@ func GenRefGraph(t *rapid.T, label string) *GraphCase {
 			objects = append(objects, nm)
 		}
 	}
+	// aliases of scalar leaves (a list that may name itself first or last): usable wherever a scalar
+	// type is, e.g. behind {type: "@al0"} on a literal
+	var leafAliases []string
+	if len(leaves) > 0 && rapid.IntRange(0, 2).Draw(t, label+"LeafAlias") == 0 {
+		al := "@al0"
+		lf := rapid.SampledFrom(leaves).Draw(t, label+"LeafAliasOf")
+		a := &ref.SNode{Kind: ref.SRef, Names: [][]string{{lf}, {al, lf}, {lf, al}}[rapid.IntRange(0, 2).Draw(t, label+"LeafAliasForm")]}
+		g.Types[al] = a
+		gc.Order = append(gc.Order, al)
+		leafAliases = append(leafAliases, al)
+	}
 	missing := rapid.IntRange(0, 5).Draw(t, label+"Missing") == 0
 	pick := func(l string) string {
 		if missing && rapid.IntRange(0, 7).Draw(t, l+"Miss") == 0 {
@@ -58,7 +69,13 @@ func GenRefGraph(t *rapid.T, label string) *GraphCase {
 		case k == 6:
 			return &ref.SNode{Kind: ref.SArr, Items: []*ref.SNode{{Kind: ref.SRef, Names: []string{pick(l + "A")}}}}
 		case k == 7 && len(leaves) > 0:
-			ln := rapid.SampledFrom(leaves).Draw(t, l+"Leaf")
+			ln := rapid.SampledFrom(append(append([]string(nil), leaves...), leafAliases...)).Draw(t, l+"Leaf")
+			if len(leaves) > 1 && rapid.Bool().Draw(t, l+"LeafOrRef") {
+				l2 := rapid.SampledFrom(leaves).Draw(t, l+"Leaf2")
+				if l2 != ln {
+					return &ref.SNode{Kind: ref.SLit, Lit: ref.KNumber, Tok: "1", Rules: []ref.SRule{{Name: "or", ValKind: ref.RVOr, Or: []ref.OrItem{{Name: ln}, {Name: l2}}}}}
+				}
+			}
 			return &ref.SNode{Kind: ref.SLit, Lit: ref.KNumber, Tok: "1", Rules: []ref.SRule{StrRule("type", ln)}}
 		case k == 8:
 			inner := &ref.SNode{Kind: ref.SObj}
@@ -77,7 +94,20 @@ func GenRefGraph(t *rapid.T, label string) *GraphCase {
 	keyTypes := 0
 	for i, nm := range names {
 		if leaf[i] {
-			g.Types[nm] = &ref.SNode{Kind: ref.SLit, Lit: ref.KNumber, Tok: "1"}
+			lf := &ref.SNode{Kind: ref.SLit, Lit: ref.KNumber, Tok: "1"}
+			if len(leaves) > 1 && rapid.IntRange(0, 2).Draw(t, fmt.Sprint(label, "LeafOr", i)) == 0 {
+				// a scalar type that lists other scalar types next to a terminating kind name: the
+				// same type can then be reached along two paths (a diamond, not a recursion)
+				var items []ref.OrItem
+				for _, o := range rapid.Permutation(leaves).Draw(t, fmt.Sprint(label, "LeafOrPerm", i)) {
+					if o != nm && len(items) < 2 {
+						items = append(items, ref.OrItem{Name: o})
+					}
+				}
+				items = append(items, ref.OrItem{Name: "integer"})
+				lf.Rules = []ref.SRule{{Name: "or", ValKind: ref.RVOr, Or: items}}
+			}
+			g.Types[nm] = lf
 			gc.Order = append(gc.Order, nm)
 			continue
 		}
